@@ -1071,7 +1071,10 @@ func seqBytes(n int) []int {
 	return b
 }
 
-var ctxDatas = [][]int{{}, {0}, {1}, {1, 0}, {9, 9}}
+var ctxDatas = [][]int{{}, {0}, {1}, {1, 0}, {9, 9},
+	// "chain ids": 32 bytes and more, sharing a 32-byte prefix -- the whole data and the
+	// service id must enter Context.NewPeerSetID
+	seqBytes(32), seqBytes(33), seqBytes(48), append(seqBytes(32), 200, 201)}
 
 func genHistory(rng *rand.Rand, mode, flavor string, nops int) input {
 	server := strings.HasPrefix(mode, "server")
@@ -1267,6 +1270,46 @@ func genEmptyNil(rng *rand.Rand, mode string, variant int) input {
 	return in
 }
 
+// genCtxIDs: set ids derived by Context.NewPeerSetID of BOTH harness services from the
+// same data of 32 bytes and more, and from data sharing a 32-byte prefix: every
+// (service, data) is a set of its own -- stored, replaced, read back through the
+// contexts and the router, and probed with connections.
+func genCtxIDs(rng *rand.Rand, mode string) input {
+	nkeys := 4
+	in := input{Mode: mode, Flavor: "ctxids", NKeys: nkeys, CtxPeer: -1}
+	long := [][]int{seqBytes(32), seqBytes(33), seqBytes(48), append(seqBytes(32), 200, 201), seqBytes(64)}
+	d1 := long[rng.Intn(len(long))]
+	d2 := long[rng.Intn(len(long))]
+	ids := []*srcIn{{Svc: 0, Data: d1}, {Svc: 1, Data: d1}, {Svc: 0, Data: d2}, {Svc: 1, Data: d2}, {Svc: -1, Data: d1}}
+	for i, k := range rng.Perm(len(ids)) {
+		o := opIn{Kind: "set", Entry: rng.Intn(3), Src: ids[k]}
+		if i < nkeys { // every id gets its own single member; the last one stays empty
+			o.Peers = []identIn{{Key: i, Decl: -1}}
+		}
+		in.Ops = append(in.Ops, o)
+		if rng.Intn(2) == 0 {
+			in.Ops = append(in.Ops, opIn{Kind: "get", Entry: rng.Intn(3), Src: ids[rng.Intn(len(ids))]})
+		}
+	}
+	for _, k := range rng.Perm(len(ids)) {
+		in.Ops = append(in.Ops, opIn{Kind: "get", Entry: rng.Intn(3), Src: ids[k]})
+	}
+	// replace one set by the empty one: only ITS member loses access
+	victim := ids[rng.Intn(len(ids))]
+	in.Ops = append(in.Ops, opIn{Kind: "set", Entry: rng.Intn(3), Src: victim})
+	for key := 0; key < nkeys; key++ {
+		if rng.Intn(2) == 0 {
+			in.Ops = append(in.Ops, opIn{Kind: "offer", Ident: &identIn{Key: key, Decl: -1}})
+		} else {
+			in.Ops = append(in.Ops, opIn{Kind: "psend", Peer: key, Msg: len(in.Ops)})
+		}
+	}
+	for _, k := range rng.Perm(len(ids)) {
+		in.Ops = append(in.Ops, opIn{Kind: "get", Entry: rng.Intn(3), Src: ids[k]})
+	}
+	return in
+}
+
 // genConcurrent: groups of 2-4 SetValidPeers calls on different set ids released from a
 // barrier (many trials), each group followed by the read-back of every set and by probes
 // with real connections by a member of each set and by a non-member.
@@ -1332,6 +1375,13 @@ func generate(rng *rand.Rand, tier string) []interface{} {
 	for i := 0; i < nEmpty; i++ {
 		ins = append(ins, genEmptyNil(rng, modes[i%len(modes)], i/len(modes)))
 	}
+	nCtx := 10
+	if tier != "quick" {
+		nCtx = 100
+	}
+	for i := 0; i < nCtx; i++ {
+		ins = append(ins, genCtxIDs(rng, []string{"server-tcp", "server-local"}[i%2]))
+	}
 	for i := 0; i < nConc; i++ {
 		ins = append(ins, genConcurrent(rng, modes[i%2*3], trials)) // router-tcp and server-tcp
 	}
@@ -1378,6 +1428,17 @@ func corpus() []interface{} {
 		{Kind: "psend", Peer: 0, Msg: 2},
 		{Kind: "get", Src: one},
 	}})
+	// two services, the same 32-byte data: two different sets (Context.NewPeerSetID)
+	ins = append(ins, input{Mode: "server-tcp", Flavor: "ctxids", NKeys: 2, CtxPeer: -1, Ops: []opIn{
+		{Kind: "set", Entry: 1, Src: &srcIn{Svc: 0, Data: seqBytes(32)}, Peers: []identIn{{Key: 0, Decl: -1}}},
+		{Kind: "set", Entry: 2, Src: &srcIn{Svc: 1, Data: seqBytes(32)}, Peers: []identIn{{Key: 1, Decl: -1}}},
+		{Kind: "set", Entry: 1, Src: &srcIn{Svc: 0, Data: seqBytes(33)}},
+		{Kind: "get", Entry: 1, Src: &srcIn{Svc: 0, Data: seqBytes(32)}},
+		{Kind: "get", Entry: 2, Src: &srcIn{Svc: 1, Data: seqBytes(32)}},
+		{Kind: "get", Src: &srcIn{Svc: 0, Data: seqBytes(33)}},
+		{Kind: "offer", Ident: &identIn{Key: 0, Decl: -1}},
+		{Kind: "psend", Peer: 1, Msg: 7},
+	}})
 	// a NIL member list as the only set: nobody is valid, the read-back is empty (not nil)
 	ins = append(ins, input{Mode: "router-tcp", Flavor: "emptyset", NKeys: 2, CtxPeer: -1, Ops: []opIn{
 		{Kind: "get", Src: one},
@@ -1413,7 +1474,7 @@ func main() {
 		Import: "Onet.Corr.C17",
 		Rule: "seeded histories (6-22 ops quick, 6-40 thorough) over 1-4 set ids (raw ids incl. zero-padding/truncation twins, context-derived ids of two services), " +
 			"2-6 peers, on bare routers (tcp, tls, in-memory) and on onet servers driven through the router and the service contexts; " +
-			"flavours honest / forged declared id / stale id given to set / mixed; 'emptyset': empty and NIL member lists as first / only / last / replacing set with probes and read-backs; " +
+			"flavours honest / forged declared id / stale id given to set / mixed; 'ctxids': ids derived by Context.NewPeerSetID of both services from the same data of 32-64 bytes and from data sharing a 32-byte prefix, each stored / replaced / read back / probed; 'emptyset': empty and NIL member lists as first / only / last / replacing set with probes and read-backs; " +
 			"'concurrent': groups of 2-4 SetValidPeers on different ids released from a barrier, 3000 (thorough 20000) trials per group with changing member lists, the trial reported is the first whose read-back deviates or the last, then read-backs and connection probes; non-trivial = at least one refusal or dispatch observed; distinct = distinct Coq case term",
 		Shard:    60,
 		Generate: generate,
